@@ -348,7 +348,10 @@ def same_term(ex, a, b):
     if b.ty.kind == "none":
         return is_none(a)
     ty = ex.join_ty(a.ty, b.ty)
-    return ex.coerce(a, ty).t == ex.coerce(b, ty).t
+    x, y = ex.coerce(a, ty).t, ex.coerce(b, ty).t
+    if x is None or y is None:
+        raise Unsupported(f"== on a value without identity ({a.ty}, {b.ty}): e.g. a lambda-defined list")
+    return x == y
 
 
 # ---------------------------------------------------------------------------------------------
